@@ -139,10 +139,10 @@ class ApplyMonitor(taps.Monitor):
             d = diff(x.__dict__[k], result.__dict__[k])
             if d:
                 ctx.fail("structure_attribute_changed_by_apply", cls=xcls, mech=k, why=d, transform=tcls)
-        sh = shared(result, x)
+        # a new object: nothing written into the result later (its coordinates, its connectivity) may reach the input
+        sh = shared(result, x) if result is not x else []
         if sh:
-            ctx.bump("result_shares_buffer_with_input_observed")
-            ctx.see("shared_buffers", sh[0])
+            ctx.fail("result_of_apply_shares_memory_with_the_input_shape", cls=xcls, mech=str(sh[0][0]).split("[")[0][:50], transform=tcls, buffers=[str(v) for v in sh[0]])
 
 
 def _smooth(t):
